@@ -3,6 +3,9 @@
  P  theorems in Properties/C12.v about the statement-by-statement Gallina model of the SQL loop
     in splink/internals/one_to_one_clustering.py; the two un-tie-broken row_number() windows
     are arbitrary choosers, so the theorems cover every engine/thread tie-break.
+ T  the ORDER BY of the two row_number() windows is read (sqlglot) from the SQL the real code emits
+    on every run; only the two modelled rank orders are accepted (fail closed), and the one found
+    selects which deterministic model X compares against.
  X  the real linker.clustering.cluster_using_single_best_links on DuckDB and SQLite with every
     per-iteration representatives table captured (DatabaseAPI wrapped from outside the repo)
     vs the model evaluated inside Coq (harness/c12_x.py).
@@ -20,6 +23,7 @@ def run(ctx: Ctx):
                        "(+ occasional duplicated edge row). Non-trivial: >= 3 iterations, some cluster with >= 2 records and a "
                        "record of a duplicate-free dataset. Distinct by the whole case.")
     ctx.trusted += [
+        "harness T: sqlglot parse of the emitted __splink__df_ranked_N SQL (window ORDER BY keys compared syntactically with the two modelled shapes)",
         "harness X: composite ids are replaced by their rank in binary string order (what min() over the id strings uses on DuckDB/SQLite)",
         "modelled not verified: SQL engines' join / group by / row_number semantics (rank 1 = some row of maximal probability in its partition)",
         "the wrapper SQL of linker_components/clustering.py (composite ids, threshold filter, final left join) is covered by X only",
